@@ -1,9 +1,9 @@
 #!/usr/bin/env bash
-# tools/sweep.sh <tier> <seed>...   — runs every claimed check for every seed, prints one line per run
+# tools/sweep.sh <tier> <seed>...   — runs every claimed check (or $SWEEP_IDS) for every seed, prints one line per run
 cd "$(dirname "$0")/.."
 TIER=${1:-quick}; shift
 SEEDS=${@:-0 1 2 7 42 12345}
-IDS=$(python3 -c "import json;print(' '.join(c['property_id'] for c in json.load(open('MANIFEST.json'))['checks']))")
+IDS=${SWEEP_IDS:-$(python3 -c "import json;print(' '.join(c['property_id'] for c in json.load(open('MANIFEST.json'))['checks']))")}
 export VERIF_EVIDENCE_DIR=${VERIF_EVIDENCE_DIR:-$(pwd)/evidence-sweep}
 mkdir -p "$VERIF_EVIDENCE_DIR"
 for s in $SEEDS; do
